@@ -1,5 +1,5 @@
 (* C04 - Decoding untrusted CTAP2 bytes never panics, aborts or hangs. *)
-From Ctap Require Import Base Schema Wire Utf8 Typed Procs Inst Tables ProcTables CborItem WireP SkipP TypedP FramingP C11P Finite Utf8P StrsP ObRequestSide ObOpTables.
+From Ctap Require Import Base Schema Wire Utf8 Typed Procs Inst Tables ProcTables CborItem WireP SkipP TypedP FramingP C11P Finite Utf8P StrsP SerP TotalP ObRequestSide ObOpTables ObRequestTotal.
 Local Open Scope string_scope.
 Local Open Scope Z_scope.
 
@@ -53,6 +53,77 @@ Proof.
   destruct (decode e t d) as [[x r]|ce| |]; cbn in Hc; try contradiction; exact I.
 Qed.
 
+(* THE TYPED DECODER IS TOTAL.  For every declaration environment e, every fuel k and every type t
+   that is decodable within k (a boolean, evaluated on the declarations), decoding ANY byte string - no
+   bound on its length, no assumption on its contents - terminates within the fuel, reaches no Panic
+   site (undeclared type, unmodelled deserializer, off-boundary slice, push_str().unwrap(), unchecked
+   unwrap in floor_char_boundary ...) and, when it succeeds, has consumed at least one byte. *)
+Theorem c04_typed_decoder_total : forall e k t, decodable e k t = true ->
+  forall i, clean (dec e k t i) /\
+            (forall v r, dec e k t i = Ok (v, r) -> (List.length r < List.length i)%nat).
+Proof.
+  intros e k t D i. split; [eapply okl_clean; apply (dec_total e k t D i)|].
+  intros v r H. exact (dec_consumes e k t i v r D H).
+Qed.
+
+(* every parameter type of every command byte is decodable within the model's fuel, in every feature
+   configuration: in the specification tables ... *)
+Theorem c04_request_types_decodable :
+  forallb (fun f => forallb (route_ok (spec_env f)) bytes256) all_feats = true.
+Proof. vm_compute. reflexivity. Qed.
+(* ... and in the declarations regenerated from /repo (obligation on the current source) *)
+Theorem c04_generated_request_types_decodable :
+  forallb (fun f => forallb (route_ok (gen_env f)) bytes256) all_feats = true.
+Proof. exact generated_request_total. Qed.
+
+Lemma routes_total : forall (envs : feats -> env),
+  forallb (fun f => forallb (route_ok (envs f)) bytes256) all_feats = true ->
+  forall f b v t d, In f all_feats -> 0 <= b < 256 -> spec_route b = RtDecode v t -> clean (decode (envs f) t d).
+Proof.
+  intros envs H f b v t d Hf Hb R.
+  pose proof (forallb_In (fun f => forallb (route_ok (envs f)) bytes256) all_feats f H Hf) as D.
+  cbv beta in D.
+  apply decode_clean_of_decodable. apply (route_ok_decodable (envs f) b v t); [|exact R].
+  exact (forall_bytes (route_ok (envs f)) D b Hb).
+Qed.
+
+Lemma no_broken_route : forall b w, 0 <= b < 256 -> spec_route b <> RtBroken w.
+Proof.
+  intros b w Hb R.
+  assert (G : forall b, 0 <= b < 256 -> match spec_route b with RtBroken _ => false | _ => true end = true)
+    by (apply forall_bytes; vm_compute; reflexivity).
+  specialize (G b Hb). rewrite R in G. discriminate.
+Qed.
+
+(* C04 for the whole of ctap2::Request::deserialize: whatever the bytes, the call returns - a request
+   or a status - and neither panics nor runs out of fuel *)
+Theorem c04_request_deserialize_total : forall f d, In f all_feats ->
+  (match d with b :: _ => 0 <= b < 256 | [] => True end) ->
+  match request_deserialize spec_tables (spec_env f) d with RPanic _ | RFuel => False | _ => True end.
+Proof.
+  intros f d Hf Hb. destruct d as [|b d]; [exact I|].
+  destruct (spec_route b) as [v t|v|c| |w] eqn:R.
+  - apply (c04_reduces_to_typed_decoder (spec_env f) b d v t Hb R).
+    exact (routes_total spec_env c04_request_types_decodable f b v t d Hf Hb R).
+  - destruct (c04_no_decode_without_parameters (spec_env f) b d Hb) as [r [E C]]; [intros; congruence|]. rewrite E. exact C.
+  - destruct (c04_no_decode_without_parameters (spec_env f) b d Hb) as [r [E C]]; [intros; congruence|]. rewrite E. exact C.
+  - destruct (c04_no_decode_without_parameters (spec_env f) b d Hb) as [r [E C]]; [intros; congruence|]. rewrite E. exact C.
+  - destruct (c04_no_decode_without_parameters (spec_env f) b d Hb) as [r [E C]]; [intros; congruence|]. rewrite E. exact C.
+Qed.
+
+(* the same for the model instantiated at the regenerated declarations and tables *)
+Theorem c04_generated_request_deserialize_total : forall f d, In f all_feats ->
+  (match d with b :: _ => 0 <= b < 256 | [] => True end) ->
+  match request_deserialize (gen_tables f) (gen_env f) d with RPanic _ | RFuel => False | _ => True end.
+Proof.
+  intros f d Hf Hb. destruct d as [|b d]; [exact I|].
+  unfold request_deserialize. rewrite (generated_route f b Hf Hb).
+  destruct (spec_route b) as [v t|v|c| |w] eqn:R; cbn [run_route]; try exact I.
+  - pose proof (routes_total gen_env generated_request_total f b v t d Hf Hb R) as T.
+    destruct (decode (gen_env f) t d) as [[x r]| | |]; cbn in T; try contradiction; exact I.
+  - exact (no_broken_route b w Hb R).
+Qed.
+
 (* tie to the source *)
 Theorem c04_generated_conforms :
   forallb (fun f => request_side_conforms (gen_env f) (spec_env f)) all_feats = true.
@@ -69,3 +140,8 @@ Eval vm_compute in "ASSUMPTIONS c04_no_decode_without_parameters". Print Assumpt
 Eval vm_compute in "ASSUMPTIONS c04_reduces_to_typed_decoder". Print Assumptions c04_reduces_to_typed_decoder.
 Eval vm_compute in "ASSUMPTIONS c04_generated_conforms". Print Assumptions c04_generated_conforms.
 Eval vm_compute in "ASSUMPTIONS c04_generated_route". Print Assumptions c04_generated_route.
+Eval vm_compute in "ASSUMPTIONS c04_typed_decoder_total". Print Assumptions c04_typed_decoder_total.
+Eval vm_compute in "ASSUMPTIONS c04_request_types_decodable". Print Assumptions c04_request_types_decodable.
+Eval vm_compute in "ASSUMPTIONS c04_generated_request_types_decodable". Print Assumptions c04_generated_request_types_decodable.
+Eval vm_compute in "ASSUMPTIONS c04_request_deserialize_total". Print Assumptions c04_request_deserialize_total.
+Eval vm_compute in "ASSUMPTIONS c04_generated_request_deserialize_total". Print Assumptions c04_generated_request_deserialize_total.
